@@ -285,6 +285,9 @@ pub fn fam_write_fail(b: &Base, out: &mut Vec<CaseSpec>) {
 
 /// seeded random fault plans
 pub fn fam_random(b: &Base, rng: &mut Rng, count: usize, max_faults: u64, out: &mut Vec<CaseSpec>) {
+    // a percentage loss over tens of thousands of datagrams is a different experiment (hours of virtual time,
+    // millions of events); long transfers get point faults only
+    let allow_loss = b.spec.nblocks() <= 2000;
     for c in 0..count {
         let nf = rng.range(1, max_faults);
         let mut rules = Vec::new();
@@ -296,7 +299,7 @@ pub fn fam_random(b: &Base, rng: &mut Rng, count: usize, max_faults: u64, out: &
             let act = ACTS[rng.below(4) as usize].0;
             rules.push(Rule::Idx { dir, idx, act });
         }
-        if rng.chance(300) {
+        if rng.chance(300) && allow_loss {
             rules.push(Rule::Loss { dir: if rng.chance(500) { Dir::W2P } else { Dir::P2W }, permille: rng.range(10, 300) as u32, seed: rng.next() });
         }
         let tp = *rng.pick(&[T, T - 300 * MS, T + 300 * MS, 2 * T]);
